@@ -42,6 +42,23 @@ func listenRestartCase() Scenario {
 	}
 }
 
+// staleSocketCase: run 1 is ListenAndServe("udp"), the handler of request (1,1) is held and Shutdown()
+// is waiting for it; the same value is started again with ListenAndServe("tcp"), serves one request
+// and is shut down: that second Shutdown finds the socket of run 1 in Server.PacketConn (ListenAndServe
+// replaces only the field it uses) and closes it. Only then is the handler of run 1 let go: its reply
+// cannot be written, although the Shutdown that is waiting for it has not even returned.
+func staleSocketCase() Scenario {
+	return Scenario{
+		Transport: "lnsUDP", MaxTCP: -1,
+		Clients:    []Client{{Reqs: []Req{{Mode: "late", Until: "release"}}, Close: "end"}},
+		Trigger:    "handler.enter(1,1)",
+		FallbackMs: 150, HoldMs: 5,
+		Ctx:     "background",
+		Misuse:  []Misuse{{Op: "restartAfterShutdown"}},
+		Restart: Restart{When: "shutting", Transport: "lnsTCP", Reqs: []string{"fast"}, At: "entered", HoldMs: 5, Release1: "after2"},
+	}
+}
+
 // sdInsideFailingStartCase is remark 3 of round 8: ActivateAndServe on a generic PacketConn with a
 // DecorateReader whose Reader has no ReadPacketConn; Shutdown is called (on its own goroutine) from
 // inside that DecorateReader call, which returns once Shutdown has set the past read deadline, i.e.
@@ -64,6 +81,10 @@ func init() {
 	})
 	pbt.Probe(knownListenRestart, func() error {
 		_, err := runScenario(listenRestartCase())
+		return err
+	})
+	pbt.Probe(knownStaleSocket, func() error {
+		_, err := runScenario(staleSocketCase())
 		return err
 	})
 	pbt.Probe(knownSdInsideFailingStart, func() error {
